@@ -61,3 +61,281 @@ pub fn c01(seed: u64, n: usize) {
         }
     }
 }
+
+use rs_opw_kinematics::kinematic_traits::{Joints, Kinematics};
+
+fn nonsingular(p: &rs_opw_kinematics::parameters::opw_kinematics::Parameters, q: &Joints, m: f64) -> bool {
+    let th: Vec<f64> = (0..6).map(|k| q[k] * p.sign_corrections[k] as f64 - p.offsets[k]).collect();
+    let psi3 = p.a2.atan2(p.c3);
+    let kk = (p.a2 * p.a2 + p.c3 * p.c3).sqrt();
+    let cx1 = p.c2 * th[1].sin() + kk * (th[1] + th[2] + psi3).sin() + p.a1;
+    th[4].sin().abs() > m && (th[2] + psi3).sin().abs() > m && cx1.abs() > m
+}
+
+/// C02: completeness and closure of the answer set at non-singular configurations
+pub fn c02(seed: u64, n: usize) {
+    let mut r = Rng::new(seed ^ 0xC02);
+    let mut done = 0;
+    while done < n {
+        let (rfam, p) = gen_params(&mut r);
+        let q = rand_joints(&mut r, PI);
+        let margin = *r.pick(&[1e-3, 1e-3, 1e-2, 1e-1]);
+        if !nonsingular(&p, &q, margin) { continue; }
+        done += 1;
+        let ks = KSpec::bare(p);
+        emit_invcl("C02", &format!("{}/margin{:.0e}", rfam, margin), &ks, &q);
+        if done % 3 == 0 {
+            let pose = ks.core().forward(&q);
+            emit_h_iki("C02", &rfam, &p, &pose);
+        }
+    }
+}
+
+/// C04: continuation ordering, nearest representative, superset, trajectories
+pub fn c04(seed: u64, n: usize) {
+    let mut r = Rng::new(seed ^ 0xC04);
+    // hook-level helpers on adversarial pairs
+    let specials = [0.0, PI, -PI, 2.0 * PI, -2.0 * PI, PI / 2.0, 3.0 * PI, -3.0 * PI, 1e-300, -0.0, 6.0, -6.0];
+    for a in specials { for b in specials { emit_h_norm("C04", "h/special", a, b); } }
+    for _ in 0..(n / 2).max(50) {
+        emit_h_norm("C04", "h/random", r.range(-PI, PI), r.range(-2.0 * PI, 2.0 * PI));
+        emit_h_norm("C04", "h/far", r.range(-10.0, 10.0), r.range(-50.0, 50.0));
+        let a = rand_joints(&mut r, 7.0); let b = rand_joints(&mut r, 7.0);
+        emit_h_dist("C04", "h/dist", &a, &b);
+    }
+    for _ in 0..n {
+        let qy = gen_query(&mut r, true, false, true);
+        let o = qy.origin.as_ref();
+        let (pf, prev) = gen_prev(&mut r, o);
+        let fam = format!("{}/prev-{}", qy.fam, pf);
+        emit_invc("C04", &fam, &qy.ks, &qy.pose, &prev, o);
+        emit_invcs("C04", &fam, &qy.ks, &qy.pose, &prev);
+        if qy.axial { emit_invc5("C04", &fam, &qy.ks, &qy.pose, &prev, o); }
+    }
+    // trajectories: each call's previous is the preceding call's first answer
+    let ntraj = (n / 50).max(2);
+    for t in 0..ntraj {
+        let (rfam, p) = gen_params(&mut r);
+        let ks = KSpec::bare(p);
+        let robot = ks.build();
+        let mut q = rand_joints(&mut r, 2.0);
+        let mut tries = 0;
+        while !nonsingular(&p, &q, 0.2) && tries < 100 { q = rand_joints(&mut r, 2.0); tries += 1; }
+        let mut vel = rand_joints(&mut r, 0.01);
+        let mut prev = q;
+        for step in 0..200 {
+            let mut qn = q;
+            for k in 0..6 { qn[k] += vel[k]; if qn[k].abs() > 2.5 { vel[k] = -vel[k]; qn[k] += 2.0 * vel[k]; } }
+            if !nonsingular(&p, &qn, 0.05) { for k in 0..6 { vel[k] = -vel[k]; } continue; }
+            q = qn;
+            let pose = robot.forward(&q);
+            emit_invc("C04", &format!("traj/{}/t{}", rfam, t % 4), &ks, &pose, &prev, Some(&q));
+            let sols = robot.inverse_continuing(&pose, &prev);
+            if let Some(f) = sols.first() { prev = *f; } else { break; }
+            let _ = step;
+        }
+    }
+}
+
+/// C05: wrist singularity detection band and J4/J6 continuity
+pub fn c05(seed: u64, n: usize) {
+    let mut r = Rng::new(seed ^ 0xC05);
+    let (_, _, thr) = hk::constants();
+    let deltas = [0.0, thr / 2.0, thr * (1.0 - 1e-6), thr * (1.0 + 1e-6), 2.0 * thr, 1e-9, 0.1];
+    for kk in -4..=4 {
+        for d in deltas { for sg in [1.0, -1.0] {
+            let v = kk as f64 * PI + sg * d;
+            emit_h_mpi("C05", "h/band-grid", v, thr);
+            emit_h_close("C05", "h/close-grid", v, 0.0);
+            emit_h_close("C05", "h/close-grid", v, PI);
+        } }
+    }
+    for i in 0..n {
+        // detection through wrappers, robots with J5 offsets and negative J5 sign
+        let (rfam, mut p) = gen_params(&mut r);
+        if i % 2 == 0 { p.offsets[4] = r.range(-1.0, 1.0); }
+        if i % 3 == 0 { p.sign_corrections[4] = -1; }
+        let mut ks = KSpec::bare(p);
+        if i % 4 == 0 { let d = 1 + r.below(2); ks.stack = gen_stack(&mut r, d, false, true); }
+        let kk = (r.below(9) as f64) - 4.0;
+        let d = *r.pick(&deltas);
+        let th5 = kk * PI + if r.chance(0.5) { d } else { -d };
+        let mut th = rand_joints(&mut r, PI);
+        th[4] = th5;
+        let q = joints_of_theta(&p, &th);
+        emit_sing("C05", &format!("{}/band", rfam), &ks, &q);
+        let q2 = rand_joints(&mut r, PI);
+        emit_sing("C05", &format!("{}/random", rfam), &ks, &q2);
+    }
+    // continuity at the exact singularity θ5 = 0
+    for i in 0..n {
+        let (rfam, mut p) = gen_params(&mut r);
+        if i % 2 == 0 { p.offsets[4] = r.range(-1.0, 1.0); }
+        let mut th = rand_joints(&mut r, 2.0);
+        th[4] = 0.0;
+        // well-conditioned arm posture: away from elbow/shoulder singularities
+        let q = joints_of_theta(&p, &th);
+        let mut qq = q; qq[4] += 0.7;
+        if !nonsingular(&p, &qq, 0.3) { continue; }
+        let ks = KSpec::bare(p);
+        let pose = ks.core().forward(&q);
+        emit_invc("C05", &format!("{}/singular-prev-realises", rfam), &ks, &pose, &q, Some(&q));
+        // previous with a different J4/J6 split and slightly different arm
+        let mut prev = q;
+        prev[3] += r.range(-1.0, 1.0); prev[5] += r.range(-1.0, 1.0);
+        emit_invc("C05", &format!("{}/singular-prev-other-split", rfam), &ks, &pose, &prev, Some(&q));
+    }
+}
+
+/// C06: 5-DOF entry points, dof 5 and 6, bare and behind axial tools/bases
+pub fn c06(seed: u64, n: usize) {
+    let mut r = Rng::new(seed ^ 0xC06);
+    for _ in 0..n {
+        let wc = r.chance(0.33);
+        let mut qy = gen_query(&mut r, false, true, wc);
+        if r.chance(0.4) {
+            let d = 1 + r.below(2);
+            qy.ks.stack = gen_stack(&mut r, d, true, false);
+            for w in &qy.ks.stack {
+                qy.pose = match w { Wrap::T(t) | Wrap::F(t) => qy.pose * t, Wrap::B(b) => b * qy.pose, Wrap::P(..) => qy.pose };
+            }
+            qy.fam.push_str("/axial-stack");
+        }
+        let o = qy.origin.as_ref();
+        let j6 = *r.pick(&[0.0, 1.0, -1.0, 10.0, -10.0, 1e-300, 2.5]);
+        emit_inv5("C06", &qy.fam, &qy.ks, &qy.pose, j6, o);
+        let mut prev = o.cloned().unwrap_or(rand_joints(&mut r, PI));
+        if r.chance(0.5) { prev = rand_joints(&mut r, 2.0 * PI); }
+        prev[5] = *r.pick(&[0.0, 2.5, -2.5, 6.0, 0.3]);
+        emit_invc5("C06", &qy.fam, &qy.ks, &qy.pose, &prev, o);
+        emit_inv("C06", &qy.fam, &qy.ks, &qy.pose, o);
+        emit_invc("C06", &qy.fam, &qy.ks, &qy.pose, &prev, o);
+        if qy.ks.stack.is_empty() { emit_h_iki5("C06", &qy.fam, &qy.ks.p, &qy.pose, j6); }
+    }
+}
+
+/// C08: constrained vs unconstrained on the same query
+pub fn c08(seed: u64, n: usize) {
+    let mut r = Rng::new(seed ^ 0xC08);
+    for i in 0..n {
+        let mut qy = gen_query(&mut r, true, true, true);
+        if qy.ks.cons.is_none() {
+            let (_, c) = gen_cons(&mut r, qy.origin.as_ref());
+            qy.ks.cons = c;
+            if qy.ks.cons.is_none() { continue; }
+        }
+        if i % 5 == 0 {
+            // parallelogram on top: the coupled answers are no longer compared with the limits
+            let d = r.below(6); let mut c = r.below(6); if c == d { c = (c + 1) % 6; }
+            qy.ks.stack.push(Wrap::P(r.range(-2.0, 2.0), d, c));
+            qy.fam.push_str("/para");
+        }
+        let o = qy.origin.as_ref();
+        let (pf, prev) = gen_prev(&mut r, o);
+        let fam = format!("{}/prev-{}", qy.fam, pf);
+        let j6 = *r.pick(&[0.0, 1.0, -2.5]);
+        emit_cmp2("C08", &fam, &qy.ks, 0, &qy.pose, &prev, j6);
+        emit_cmp2("C08", &fam, &qy.ks, 1, &qy.pose, &prev, j6);
+        if qy.axial {
+            emit_cmp2("C08", &fam, &qy.ks, 2, &qy.pose, &prev, j6);
+            emit_cmp2("C08", &fam, &qy.ks, 3, &qy.pose, &prev, j6);
+        }
+        emit_consof("C08", &qy.fam, &qy.ks);
+    }
+}
+
+fn stacks_upto(depth: usize) -> Vec<Vec<u8>> {
+    // all orders of T/B/F to the given depth
+    let mut out: Vec<Vec<u8>> = vec![vec![]];
+    let mut layer: Vec<Vec<u8>> = vec![vec![]];
+    for _ in 0..depth {
+        let mut next = vec![];
+        for s in &layer { for w in 0..3u8 { let mut t = s.clone(); t.push(w); next.push(t); } }
+        out.extend(next.iter().cloned());
+        layer = next;
+    }
+    out
+}
+
+/// C09: exhaustive delegation matrix over wrapper orders, general and axial isometries
+pub fn c09(seed: u64, n: usize) {
+    let mut r = Rng::new(seed ^ 0xC09);
+    let depth = if n >= 2000 { 3 } else { 2 };
+    let shapes = stacks_upto(depth);
+    let per = (n / shapes.len()).max(1);
+    for shape in &shapes {
+        for _ in 0..per {
+            let (rfam, p) = gen_params(&mut r);
+            let axial = r.chance(0.5);
+            let mut ks = KSpec::bare(p);
+            if r.chance(0.3) { let q0 = rand_joints(&mut r, PI); let (_, c) = gen_cons(&mut r, Some(&q0)); ks.cons = c; }
+            for w in shape {
+                let iso = if axial { axial_iso(&mut r) } else { rand_iso(&mut r, 0.5) };
+                ks.stack.push(match w { 0 => Wrap::T(iso), 1 => Wrap::B(rand_iso(&mut r, 0.5)), _ => Wrap::F(iso) });
+            }
+            let q = rand_joints(&mut r, PI);
+            let pose = ks.build().forward(&q);
+            let tag: String = shape.iter().map(|w| ["T", "B", "F"][*w as usize]).collect();
+            let fam = format!("{}/stack-{}{}", rfam, if tag.is_empty() { "-" } else { &tag }, if axial { "/axial" } else { "" });
+            emit_links("C09", &fam, &ks, &q);
+            emit_inv("C09", &fam, &ks, &pose, Some(&q));
+            let (pf, prev) = gen_prev(&mut r, Some(&q));
+            emit_invc("C09", &format!("{}/prev-{}", fam, pf), &ks, &pose, &prev, Some(&q));
+            if axial {
+                emit_inv5("C09", &fam, &ks, &pose, 2.5, Some(&q));
+                emit_invc5("C09", &format!("{}/prev-{}", fam, pf), &ks, &pose, &prev, Some(&q));
+            }
+            emit_sing("C09", &fam, &ks, &q);
+            emit_consof("C09", &fam, &ks);
+        }
+    }
+    for _ in 0..(n / 10).max(10) {
+        let (rfam, p) = gen_params(&mut r);
+        let mut ks = KSpec::bare(p);
+        if r.chance(0.5) { ks.stack = gen_stack(&mut r, 1, false, false); }
+        let q = rand_joints(&mut r, PI);
+        let base = rand_iso(&mut r, 1.0);
+        let axis = *r.pick(&[0u32, 1, 2, 2, 1, 0, 3, 7]);
+        emit_lin("C09", &format!("{}/linear-axis", rfam), &ks, axis, &base, r.range(-2.0, 2.0), &q);
+        let tr = nalgebra::Vector3::new(r.range(-2.0, 2.0), r.range(-2.0, 2.0), r.range(-2.0, 2.0));
+        emit_gantry("C09", &format!("{}/gantry", rfam), &ks, &base, &tr, &q);
+    }
+}
+
+/// C16: parallelogram coupling, all ordered index pairs, nesting with tool/base
+pub fn c16(seed: u64, n: usize) {
+    let mut r = Rng::new(seed ^ 0xC16);
+    let mut pairs = vec![];
+    for d in 0..6 { for c in 0..6 { if d != c { pairs.push((d, c)); } } }
+    let per = (n / pairs.len()).max(1);
+    for (d, c) in pairs {
+        for i in 0..per {
+            let (rfam, p) = gen_params(&mut r);
+            let mut ks = KSpec::bare(p);
+            let s = *r.pick(&[1.0, -1.0, 0.5, 2.0, -2.0, 0.0, 1.0]) * if r.chance(0.5) { 1.0 } else { r.range(0.1, 1.0) };
+            let mut fam = format!("{}/pair{}{}", rfam, d, c);
+            match i % 4 {
+                0 => { ks.stack.push(Wrap::P(s, d, c)); }
+                1 => { ks.stack.push(Wrap::T(rand_iso(&mut r, 0.3))); ks.stack.push(Wrap::P(s, d, c)); fam.push_str("/P(T)"); }
+                2 => { ks.stack.push(Wrap::P(s, d, c)); ks.stack.push(Wrap::B(rand_iso(&mut r, 0.5))); ks.stack.push(Wrap::T(rand_iso(&mut r, 0.3))); fam.push_str("/T(B(P))"); }
+                _ => {
+                    ks.stack.push(Wrap::P(s, d, c));
+                    let d2 = r.below(6); let mut c2 = r.below(6); if c2 == d2 { c2 = (c2 + 1) % 6; }
+                    ks.stack.push(Wrap::P(r.range(-2.0, 2.0), d2, c2)); fam.push_str("/P(P)");
+                }
+            }
+            let q = rand_joints(&mut r, PI);
+            let k = ks.build();
+            let pose = k.forward(&q);
+            emit_links("C16", &fam, &ks, &q);
+            emit_inv("C16", &fam, &ks, &pose, Some(&q));
+            let (pf, prev) = gen_prev(&mut r, Some(&q));
+            emit_invc("C16", &format!("{}/prev-{}", fam, pf), &ks, &pose, &prev, Some(&q));
+            let only_para = ks.stack.iter().all(|w| matches!(w, Wrap::P(..)));
+            if only_para {
+                emit_inv5("C16", &fam, &ks, &pose, q[5], Some(&q));
+                emit_invc5("C16", &format!("{}/prev-{}", fam, pf), &ks, &pose, &prev, Some(&q));
+            }
+        }
+    }
+}
